@@ -261,7 +261,9 @@ func genC09(t *rapid.T) c09Case {
 				if ch.Node != nil || model.IsEllipsisName(ch.Var) {
 					continue
 				}
-				switch rapid.SampledFrom([]int{0, 0, 0, 1, 3, 4, 4, 4}).Draw(t, "itemBindClass") {
+				switch rapid.SampledFrom([]int{0, 0, 0, 1, 3, 4, 4, 4, 0, 0, 3, 4, 4, 5}).Draw(t, "itemBindClass") {
+				case 5:
+					add(Assign{Name: ch.Var, Kind: "item", Alien: rapid.SampledFrom(alienTypes).Draw(t, "alien")})
 				case 0:
 					add(Assign{Name: ch.Var, Kind: "item", Node: genTree(t, treeOpts{NoDeep: true, MaxDepth: 2, MaxElems: 3}, nm)})
 				case 3:
@@ -298,6 +300,10 @@ func genC09(t *rapid.T) c09Case {
 				}
 				add(Assign{Name: x.AVar.Name, Kind: model.A, Str: &s})
 			case 2:
+				if rapid.IntRange(0, 2).Draw(t, "alienValue") == 2 {
+					add(Assign{Name: x.AVar.Name, Kind: model.A, Alien: rapid.SampledFrom(alienTypes).Draw(t, "alien")})
+					return
+				}
 				// outside the declared bounds (when there are bounds) or non-ASCII
 				var s string
 				switch {
@@ -320,7 +326,9 @@ func genC09(t *rapid.T) c09Case {
 					v := genElem(t, x.Kind)
 					add(Assign{Name: e.Var, Kind: x.Kind, Elem: &v})
 				case 2:
-					if v, ok := outOfDomainElem(x.Kind); ok {
+					if rapid.IntRange(0, 2).Draw(t, "alienValue") == 2 {
+						add(Assign{Name: e.Var, Kind: x.Kind, Alien: rapid.SampledFrom(alienTypes).Draw(t, "alien")})
+					} else if v, ok := outOfDomainElem(x.Kind); ok {
 						add(Assign{Name: e.Var, Kind: x.Kind, Elem: &v})
 					}
 				case 3:
@@ -355,7 +363,9 @@ func genC09(t *rapid.T) c09Case {
 				}
 			}
 		}
-		switch rapid.IntRange(0, 3).Draw(t, "unknownValKind") {
+		switch rapid.IntRange(0, 4).Draw(t, "unknownValKind") {
+		case 4:
+			add(Assign{Name: name, Kind: model.U1, Alien: rapid.SampledFrom(alienTypes).Draw(t, "alien")}) // never looked at
 		case 3:
 			str := "zz"
 			add(Assign{Name: name, Kind: model.A, Str: &str})
